@@ -882,9 +882,28 @@ fn pos_of_board(b: &Board) -> Option<Pos> {
 /// node deadline) with the main-search node log on. Every node below the root is judged: a position
 /// that already occurred twice in the game (root included) must have been answered as a repetition
 /// draw, whatever the table holds; a position seen fewer than twice must not have been.
-fn c09_insearch_case(g: &Game, depth: u8, node_limit: u64, st: &mut Stats, case: &dyn Fn() -> J) {
+fn c09_insearch_case(g: &Game, earlier: Option<(&str, u8)>, depth: u8, node_limit: u64, st: &mut Stats, case: &dyn Fn() -> J) {
     let cmd = g.command(None);
     let mut engine = Flounder::new();
+    if let Some((ecmd, edepth)) = earlier {
+        // another game searched on this engine first (no ucinewgame in between): whatever the
+        // engine prepared for that search must not leak into the next one
+        let e = &mut engine;
+        if engine_call(|| e.verif_handle_command(ecmd)).is_err() {
+            return;
+        }
+        let b0 = *engine.verif_board();
+        let s0 = engine.verif_searcher();
+        s0.verif_timer().node_limit = Some(20_000);
+        if engine_call(|| {
+            s0.find_best_move(&b0, edepth, None);
+        })
+        .is_err()
+        {
+            return;
+        }
+        engine.verif_searcher().verif_timer().node_limit = None;
+    }
     {
         let e = &mut engine;
         if engine_call(|| e.verif_handle_command(&cmd)).is_err() {
@@ -961,6 +980,49 @@ fn c09_insearch_case(g: &Game, depth: u8, node_limit: u64, st: &mut Stats, case:
     }
 }
 
+
+/// A game of the same length that ends in the same position as `g` but took another road: it starts
+/// from the position `g` had after four plies, follows `g` to its end and then both sides move a
+/// piece out and back. Same ply count, same final position, other occurrence counts.
+fn same_end_other_road(g: &Game, rng: &mut Rng) -> Option<Game> {
+    if g.moves.len() < 6 {
+        return None;
+    }
+    let start = g.positions[4].clone();
+    let mut moves: Vec<Mv> = g.moves[4..].to_vec();
+    let mut positions: Vec<Pos> = g.positions[4..].to_vec();
+    let end = g.current().clone();
+    // out and back: a1 (mover), b1 (other side), a1 back, b1 back
+    let mut cur = end.clone();
+    for _ in 0..40 {
+        let l1 = cur.legal_moves();
+        if l1.is_empty() {
+            return None;
+        }
+        let m1 = *rng.pick(&l1);
+        let p1 = cur.make(&m1);
+        let l2 = p1.legal_moves();
+        if l2.is_empty() {
+            continue;
+        }
+        let m2 = *rng.pick(&l2);
+        let p2 = p1.make(&m2);
+        let Some(m3) = p2.legal_moves().into_iter().find(|m| m.from == m1.to && m.to == m1.from && m.promo == 0) else { continue };
+        let p3 = p2.make(&m3);
+        let Some(m4) = p3.legal_moves().into_iter().find(|m| m.from == m2.to && m.to == m2.from && m.promo == 0) else { continue };
+        let p4 = p3.make(&m4);
+        if p4.key() != end.key() {
+            continue;
+        }
+        moves.extend([m1, m2, m3, m4]);
+        positions.extend([p1, p2, p3, p4]);
+        cur = end;
+        let _ = cur;
+        return Some(Game { start, startpos: false, moves, positions });
+    }
+    None
+}
+
 fn c09_insearch(ctx: &Ctx) -> Stats {
     let n = ctx.budget(400, 12_000);
     let limit: u64 = if ctx.quick() { 30_000 } else { 150_000 };
@@ -977,10 +1039,28 @@ fn c09_insearch(ctx: &Ctx) -> Stats {
             }
             let depth = 4 + rng.below(4) as u8;
             let cmd = g.command(None);
-            st.case(hash64(&(cmd.clone(), depth, 0x15u8)), true);
-            let case = || J::obj(vec![("kind", J::s("insearch")), ("command", J::s(cmd.clone())), ("depth", J::i(depth as i64)), ("node_limit", J::i(limit as i64))]);
-            st.sample_tagged("insearch", || case());
-            c09_insearch_case(&g, depth, limit, &mut st, &case);
+            // a third of the cases: first another game of the same length ending in the same
+            // position is set up and searched on the same engine (in either order)
+            let mut first: Option<Game> = None;
+            let mut g = g;
+            if i % 3 == 1 {
+                if let Some(other) = same_end_other_road(&g, &mut rng) {
+                    if rng.chance(1, 2) {
+                        first = Some(other);
+                    } else {
+                        first = Some(g.clone());
+                        g = other;
+                    }
+                    st.bump("insearch_after_an_equal_length_game_ending_in_the_same_position");
+                }
+            }
+            let cmd = if first.is_some() { g.command(None) } else { cmd };
+            let ecmd = first.as_ref().map(|f| f.command(None));
+            let edepth = 1 + rng.below(2) as u8;
+            st.case(hash64(&(cmd.clone(), ecmd.clone(), depth, 0x15u8)), true);
+            let case = || J::obj(vec![("kind", J::s("insearch")), ("command", J::s(cmd.clone())), ("depth", J::i(depth as i64)), ("node_limit", J::i(limit as i64)), ("earlier_command", J::s(ecmd.clone().unwrap_or_default())), ("earlier_depth", J::i(edepth as i64))]);
+            st.sample_tagged(if first.is_some() { "insearch_after_other_game" } else { "insearch" }, || case());
+            c09_insearch_case(&g, ecmd.as_deref().map(|c| (c, edepth)), depth, limit, &mut st, &case);
         }
         st
     })
@@ -989,9 +1069,9 @@ fn c09_insearch(ctx: &Ctx) -> Stats {
 pub fn run_c09(ctx: &Ctx) -> i32 {
     let spec = Spec {
         level: "exploration",
-        rule: "a case is a game history given with a position command (startpos or FEN start, 2..40 moves that shuffle pieces out and back so that candidate successor positions have occurred 0, 1, 2 or more times, sometimes the initial position), optionally preceded on the same engine by another position command (an extension, a prefix, an unrelated game). For every successor S of the current position the engine's repetition answer (hook) must be 'draw' when S already occurred twice (identical placement, side, rights, ep target) and 'not a draw' when it occurred fewer than twice even under the FIDE reading of 'same position'; in between either answer is accepted. Inside real searches (hook: log of how every main-search node was answered): on a fresh engine, after the position command, one search of 4..7 iterations bounded by a node deadline; every node below the root whose position already occurred twice in the game (root included) must have been answered as a repetition draw — not from the table, not searched — and no node seen fewer than twice may be. End-to-end on the real binary: after 'ucinewgame', the position command and 'go depth 1', the printed depth-1 score must equal max over moves of (0 for a third occurrence, else minus the engine's own quiescence value). Distinct by command text; non-trivial when some successor is a third occurrence",
+        rule: "a case is a game history given with a position command (startpos or FEN start, 2..40 moves that shuffle pieces out and back so that candidate successor positions have occurred 0, 1, 2 or more times, sometimes the initial position), optionally preceded on the same engine by another position command (an extension, a prefix, an unrelated game). For every successor S of the current position the engine's repetition answer (hook) must be 'draw' when S already occurred twice (identical placement, side, rights, ep target) and 'not a draw' when it occurred fewer than twice even under the FIDE reading of 'same position'; in between either answer is accepted. Inside real searches (hook: log of how every main-search node was answered): on a fresh engine, after the position command, one search of 4..7 iterations bounded by a node deadline; every node below the root whose position already occurred twice in the game (root included) must have been answered as a repetition draw — not from the table, not searched — and no node seen fewer than twice may be. In a third of these cases another game of the same length ending in the same position (another road: other occurrence counts) is set up and searched on the same engine first. End-to-end on the real binary: after 'ucinewgame', the position command and 'go depth 1', the printed depth-1 score must equal max over moves of (0 for a third occurrence, else minus the engine's own quiescence value). Distinct by command text; non-trivial when some successor is a third occurrence",
         assumptions: vec!["the reference rules implementation is correct (perft self-test at every run)".into(), "the end-to-end expectation uses the engine's own quiescence search (hook build of the same sources) for the values of non-repeating moves".into()],
-        required: if ctx.replay.is_some() { vec![] } else { vec!["successor_seen_0_times", "successor_seen_1_time", "successor_seen_2_times", "successor_seen_3_or_more_times", "third_occurrence_of_the_initial_position", "earlier_command_extends_the_game", "earlier_command_is_a_prefix", "earlier_command_unrelated_game", "blackbox_games_where_the_rule_changes_the_score", "histories_with_third_occurrence_more_than_100_plies_after_the_second", "placement_recurs_with_other_rights_or_ep", "insearch_nodes_answered_as_repetition_draw", "insearch_repetition_draws_two_or_more_plies_below_the_root", "insearch_repetition_draws_on_return_to_the_root_position", "insearch_nodes_seen_once_before_and_rightly_not_drawn"] },
+        required: if ctx.replay.is_some() { vec![] } else { vec!["successor_seen_0_times", "successor_seen_1_time", "successor_seen_2_times", "successor_seen_3_or_more_times", "third_occurrence_of_the_initial_position", "earlier_command_extends_the_game", "earlier_command_is_a_prefix", "earlier_command_unrelated_game", "blackbox_games_where_the_rule_changes_the_score", "histories_with_third_occurrence_more_than_100_plies_after_the_second", "placement_recurs_with_other_rights_or_ep", "insearch_nodes_answered_as_repetition_draw", "insearch_repetition_draws_two_or_more_plies_below_the_root", "insearch_repetition_draws_on_return_to_the_root_position", "insearch_nodes_seen_once_before_and_rightly_not_drawn", "insearch_after_an_equal_length_game_ending_in_the_same_position"] },
         exhaustive: false,
         extra: vec![],
     };
@@ -1074,7 +1154,8 @@ fn replay_c09(ctx: &Ctx, c: &J, st: &mut Stats) {
             Some(g) => {
                 st.case(hash64(&cmd), true);
                 let cc = c.clone();
-                c09_insearch_case(&g, c.int_of("depth") as u8, c.int_of("node_limit") as u64, st, &|| cc.clone());
+                let ec = c.str_of("earlier_command");
+                c09_insearch_case(&g, if ec.is_empty() { None } else { Some((ec.as_str(), c.int_of("earlier_depth").max(1) as u8)) }, c.int_of("depth") as u8, c.int_of("node_limit") as u64, st, &|| cc.clone());
             }
             None => st.inconclusive.push("replay: the command is not a well-formed legal game".into()),
         }
